@@ -76,10 +76,17 @@ func TestC41(t *testing.T) {
 				kind = []string{"labels", "series", "label_values"}[nmeta%3]
 				nmeta++
 			}
-			yield(vt.Case{"kind": kind, "src": "tlc",
+			out := vt.Case{"kind": kind, "src": "tlc",
 				"s": vt.Int64(c["s"]) * unit, "e": vt.Int64(c["e"]) * unit,
 				"step": vt.Int64(c["step"]) * unit, "iv": vt.Int64(c["iv"]) * unit,
-				"e2e": n%e2eEvery == 0})
+				"e2e": n%e2eEvery == 0}
+			if d := vt.Map(c["dyn"]); d != nil && vt.Int64(d["shards"]) > 0 {
+				// dynamic split interval (min / max / horizontal shards): the interval is computed by the
+				// frontend from the query length; only the chain can be observed
+				out["dyn"] = map[string]any{"min": vt.Int64(d["min"]) * unit, "max": vt.Int64(d["max"]) * unit, "shards": vt.Int64(d["shards"])}
+				out["e2e"] = true
+			}
+			yield(out)
 		}
 		steps := []int64{1000, 15000, 30000, 60000, 300000, 3600000, 13 * 3600000, 2 * 86400000, 7000, 1}
 		ivs := []int64{3600000, 6 * 3600000, 12 * 3600000, 86400000, 90 * 60000, 77000, 600000}
